@@ -714,6 +714,12 @@ pub fn run(args: &Args) -> Report {
                 stage_case(&mut st, "mux_frame", "replay".into(), rp.clone(), 64 << 20, move || run_mux_against(bytes, 2));
             }
             "c10-semantic" => stage_semantic(&mut st, args.seed),
+            "c10-control-flood" => {
+                let ch = core::Chooser::new(vec![], None);
+                if let Some(v) = super::c14::control_flood_run(&ch, 60, rp["accept_first"].as_bool().unwrap_or(false)).violation {
+                    st.viol.insert("mux_control_flood".into(), (format!("[mux_control_flood] {v}"), rp.clone()));
+                }
+            }
             _ => {
                 stage_frames(args.tier, &mut st);
                 stage_preface_noise(args.tier, &mut st);
@@ -740,6 +746,18 @@ pub fn run(args: &Args) -> Report {
     stage_frames(args.tier, &mut stg);
     stage_preface_noise(args.tier, &mut stg);
     let mux_items = stage_mux(args.tier, &mut stg);
+    // a peer flooding control frames (OPEN / CLOSE) at a stream nobody serves: buffered frames stay
+    // within read_frame_count (same driver as C14, default schedule)
+    for accept_first in [false, true] {
+        stg.cases += 1;
+        let ch = core::Chooser::new(vec![], None);
+        match super::c14::control_flood_run(&ch, 60, accept_first).violation {
+            None => stg.ok += 1,
+            Some(v) => {
+                stg.viol.entry("mux_control_flood".into()).or_insert((format!("[mux_control_flood] {v}"), json!({"harness":"c10-control-flood","accept_first":accept_first})));
+            }
+        }
+    }
     // (c)
     let mut sem = Stats::default();
     stage_semantic(&mut sem, args.seed);
